@@ -89,8 +89,9 @@ type armEval struct {
 	maxStep int
 	// helper, when set, resolves a function of the package to its declaration: a call that passes a dispatch variable on
 	// (c.lowerStore(op)) is interpreted in place, with the parameter bound to the same label
-	helper func(f *types.Func) *ast.FuncDecl
-	depth  int
+	helper   func(f *types.Func) *ast.FuncDecl
+	depth    int
+	bareStmt bool
 }
 
 // inlineHelper interprets the body of a helper that is handed a dispatch variable; reports whether it did.
@@ -108,7 +109,7 @@ func (e *armEval) inlineHelper(call *ast.CallExpr, env map[types.Object]aval) bo
 			tagArgs = append(tagArgs, i)
 		}
 	}
-	if len(tagArgs) == 0 {
+	if len(tagArgs) == 0 && !e.bareStmt {
 		return false
 	}
 	hd := e.helper(f)
@@ -393,8 +394,15 @@ func (e *armEval) run(stmts []ast.Stmt, env map[types.Object]aval) map[types.Obj
 			return env
 		default:
 			if es, ok := s.(*ast.ExprStmt); ok {
-				if call, ok := es.X.(*ast.CallExpr); ok && e.inlineHelper(call, env) {
-					continue
+				if call, ok := es.X.(*ast.CallExpr); ok && !(core.Callee(e.info, call) != nil && e.want(core.Callee(e.info, call))) {
+					// a bare call statement of a method of the package is interpreted in place too: the arm may hand its
+					// whole lowering to a method without arguments (c.lowerAtomicMemoryNotify())
+					e.bareStmt = true
+					done := e.inlineHelper(call, env)
+					e.bareStmt = false
+					if done {
+						continue
+					}
 				}
 			}
 			e.scanCalls(s, env)
